@@ -48,11 +48,12 @@ def strategy(tier):
         kind = draw(st.sampled_from(["nominal", "gradjac", "gradjac", "kkt", "kkt", "create"]))
         n = draw(st.integers(1, nmax))
         m = draw(st.integers(0, 4))
-        regime = draw(st.sampled_from(["wide", "wide", "sub_unit", "narrow", "extreme"]))
+        regime = draw(st.sampled_from(["wide", "wide", "sub_unit", "narrow", "extreme", "integral"]))
         if regime == "extreme" and kind == "kkt":
             regime = "wide"
         # "extreme": beyond the range (and mantissa resolution) of single precision
-        emin, emax = {"wide": (-40, 40), "sub_unit": (-30, -1), "narrow": (-3, 3), "extreme": (-300, 300)}[regime]
+        # "integral": every entry is an integer below 2^31, so the "int" storage style yields integer-typed matrices
+        emin, emax = {"wide": (-40, 40), "sub_unit": (-30, -1), "narrow": (-3, 3), "extreme": (-300, 300), "integral": (4, 26)}[regime]
         vec = lambda k: [draw(mag(emin, emax)) for _ in range(k)]  # noqa: E731
         case = {"kind": kind, "n": n, "m": m, "regime": regime}
         case["g"] = vec(n)
@@ -64,7 +65,7 @@ def strategy(tier):
         case["cs"] = vec(m)
         case["fmt"] = draw(st.sampled_from(["coo", "csr", "csc"]))
         # storage style of the sparse inputs: canonical, fixed pattern with stored zeros, duplicate entries
-        case["style"] = draw(st.sampled_from([None, None, "zeros", "dup"]))
+        case["style"] = draw(st.sampled_from([None, None, "zeros", "dup", "int"]))
         if kind == "create":
             case["stype"] = draw(st.sampled_from(["Nominal", "GradJac", "KKT"]))
             case["via"] = draw(st.sampled_from(["create_scaling", "transformation_double", "transformation_single"]))
